@@ -279,7 +279,22 @@ def run_env(ck):
     elif mism:
         w = min((byid[i] for i in mism), key=lambda c: len(c["env"]))
         ck.violation({"property": "C20", "kind": "model/AuthEnv.v and portEnv disagree; the oracle accepts", "case": w}, no_input=True)
+    # the configuration FILE reader (cloki-config: viper + mapstructure, not qryn's code) driven the way main drives it
+    # (clconfig.New with the path, ReadConfig, then the verbatim portEnv): the values of the file reach the fields byte
+    # for byte -- in particular a non-empty password never becomes empty (blanks, quotes, backslashes, non-ASCII)
+    real = [c for c in cases if c.get("via_file")]
+    changed = [c for c in real if c.get("read") != c["file"]]
+    emptied = [c for c in real if (c["file"]["pass"] and not (c.get("read") or {}).get("pass")) or (c["file"]["user"] and not (c.get("read") or {}).get("user"))]
+    ck.obligation("configuration file reader (cloki-config ReadConfig, as main calls it) hands username, password, cors and mode of %d generated files to the fields unchanged (%d distinct credential texts)"
+                  % (len(real), len(set(c["file"]["pass"] for c in real) | set(c["file"]["user"] for c in real))),
+                  bool(real) and not changed, "first: %s" % json.dumps(changed[:1])[:600])
+    if emptied:
+        w = emptied[0]
+        ck.violation({"property": "C20", "kind": "a configured non-empty login/password is EMPTY after the configuration reader: main installs no BasicAuth (login_without_password_is_open)",
+                      "case": w, "replay": "harness authenv --cases <file with the line `case`>"})
     both = sum(1 for c in cases if not c["err"] and c["out"]["user"] and c["out"]["pass"])
+    ck.extra["configuration_file_reader"] = {"files": len(real), "changed_by_the_reader": len(changed), "emptied": len(emptied),
+                                             "credential_texts": sorted(set(c["file"]["pass"] for c in real))[:40]}
     ck.coverage["evaluations"] += len(cases)
     ck.coverage["distinct_nontrivial"] += len(set(json.dumps(c["env"]) for c in cases if not c["err"] and (c["out"]["user"] or c["out"]["pass"])))
     ck.extra["environments"] = {"cases": len(cases), "refused": sum(1 for c in cases if c["err"]), "login_and_password": both,
@@ -412,6 +427,46 @@ def run_locked(ck):
     ck.obligation("AcceptEncoding / Cors / Logging call next exactly once and pass its status on, for every method (incl. OPTIONS) and header set "
                   "(pre-flight, Access-Control-Request-Method alone, websocket upgrade, gzip): %d probes" % (mwp[0]["n"] if mwp else 0),
                   bool(mwp) and mwp[0]["bad"] == 0 and mwp[0]["n"] > 0, json.dumps(mwp[0].get("rows") if mwp else None))
+    # -------- the compression wrapper call by call: model/GzipWriter.v on scripted next handlers
+    gzp = [l for l in lines if l["kind"] == "gzprobe"]
+    gcases = gzp[0]["cases"] if gzp else []
+    if ck.obligation("gzip writer probe ran (%d scripted next handlers behind the real AcceptEncodingMiddleware)" % len(gcases),
+                     bool(gcases) and not any(c.get("panic") for c in gcases), str([c for c in gcases if c.get("panic")][:1])[:400]):
+        def ev(e):
+            if e["kind"] == "header":
+                return "UHeader %d %s" % (e["code"], coq_bool(e["ce"]))
+            if e["kind"] == "raw":
+                return "URaw %d%%nat %s" % (e["len"], coq_bool(e["ce"]))
+            return "UGzip %s %s" % (coq_bool(e["len"] > 0), coq_bool(e["ce"]))
+        rows = ["{| gc_id := %d; gc_gzip := %s; gc_next := [%s]; gc_obs := [%s] |}" % (
+            c["id"], coq_bool(c["gzip"]), "; ".join(("AHeader %d" % a["code"]) if a["h"] else ("AWrite %d%%nat" % a["len"]) for a in c["next"]),
+            "; ".join(ev(e) for e in c["obs"])) for c in gcases]
+        txt = ("From Coq Require Import List ZArith Bool.\nFrom Qryn Require Import model.GzipWriter.\nImport ListNotations.\nOpen Scope Z_scope.\n"
+               "Definition cases : list gzcase := [\n  " + ";\n  ".join(rows) + "].\n"
+               "Definition GM := Eval vm_compute in gz_mismatches cases.\nPrint GM.\n"
+               "Definition GV := Eval vm_compute in gz_violations cases.\nPrint GV.\n")
+        rc, out = ck.coq_eval("C20_gzip", txt)
+        flat = " ".join(out.split())
+        gm = re.search(r"GM = \[(.*?)\]\s*: list Z", flat)
+        gv = re.search(r"GV = \[(.*?)\]\s*: list Z", flat)
+        if ck.obligation("gzip writer cases evaluated inside Coq", rc == 0 and gm and gv, out[-1200:]):
+            gmi = [int(x) for x in re.findall(r"\d+", gm.group(1))]
+            gvi = [int(x) for x in re.findall(r"\d+", gv.group(1))]
+            byid = {c["id"]: c for c in gcases}
+            ck.obligation("correspondence: model GzipWriter.accept_encoding = AcceptEncodingMiddleware + gzipResponseWriter, call by call on the underlying writer (WriteHeader / Write, Content-Encoding at that moment), %d scripted handlers (%d answering like a refusal)"
+                          % (len(gcases), sum(1 for c in gcases if c["next"] and c["next"][0]["h"] and c["next"][0]["code"] // 100 != 2)),
+                          not gmi, "mismatching: %s" % json.dumps([byid[i] for i in gmi[:2]])[:900])
+            ck.obligation("the compression wrapper hands a refusal (non-2xx status first) to the wire unchanged and never changes the first status next chose",
+                          not gvi, "violating: %s" % json.dumps([byid[i] for i in gvi[:2]])[:900])
+            if gvi:
+                w = min((byid[i] for i in gvi), key=lambda c: len(c["next"]))
+                ck.violation({"property": "C20", "kind": "the compression wrapper alters an answer of the handler behind it (a refusal does not reach the client as BasicAuth wrote it)",
+                              "case": {"kind": "gzprobe", "accept_encoding": w["accept_encoding"], "next_handler_calls": w["next"], "calls_reaching_the_underlying_writer": w["obs"]},
+                              "replay": "bin/check C20   (harness probe kind=gzprobe, case %d)" % w["id"]})
+            elif gmi:
+                w = min((byid[i] for i in gmi), key=lambda c: len(c["next"]))
+                ck.violation({"property": "C20", "kind": "model/GzipWriter.v and gzipResponseWriter disagree; the oracle accepts", "case": w}, no_input=True)
+            ck.coverage["evaluations"] += len(gcases)
     aup = [l for l in lines if l["kind"] == "authprobe"]
     ck.obligation("BasicAuthMiddleware alone decides on the Authorization header only: across 10 methods x 13 paths (query / userinfo look-alikes) x 7 header "
                   "sets (pre-flight, upgrade, X-Forwarded-For 127.0.0.1, Proxy-Authorization / X-Api-Key, cookies, probe agents) x 3 remote addresses, "
